@@ -351,7 +351,7 @@ func evalC08e(c c08eCase) (f *Failure, nontrivial bool) {
 			run(c.Away, fmt.Sprintf("away%d", round))
 			awayFor := time.Since(lossAt)
 			if c.How == "blackhole" {
-				r.Net.OnDial = nil // links dialed from now on work again
+				r.Net.SetOnDial(nil) // links dialed from now on work again
 				r.Net.CutAll()
 			}
 			r.Net.SetRefuse(false)
